@@ -20,6 +20,8 @@ RUN_PROFILES = {
                         imm=0.1, params=0.3, parloop_shapes="all", max_block=2, max_tasks=4),
     "junk": dict(junk=0.4, imm=0.1),
     "uuid": dict(test_ids=False, imm=0.2, w={"count": 3, "parallel": 2, "parloop": 1}),
+    "uuid_cond_loops": dict(test_ids=False, imm=0.3, max_depth=4,
+                            w={"count": 4, "while": 2, "cond": 5, "service": 4, "call": 2, "parallel": 1}),
     "params": dict(params=1.0, w={"count": 4, "parloop": 2, "call": 3, "service": 4}, imm=0.1),
     "hostile_append": dict(params=1.0, mutate="append", w={"count": 4, "parloop": 2, "call": 3}),
     "hostile_clear": dict(params=1.0, mutate="clear", w={"count": 4, "parloop": 2, "call": 3}),
@@ -59,7 +61,7 @@ PROPS = {
                 profiles=["junk", "react_junk", "react"], quick=240, thorough=6000,
                 finding_profiles=["parloop_all"]),
     "C14": dict(kind="run", proj="P_ids", mon="mon_C14",
-                profiles=["uuid", "loops", "parloop", "parallel", "react_loops"], quick=240, thorough=6000,
+                profiles=["uuid", "uuid_cond_loops", "loops", "parloop", "parallel", "react_loops"], quick=240, thorough=6000,
                 finding_profiles=["parloop_all"]),
     "C15": dict(kind="run", proj="P_C15", mon="mon_true",
                 profiles=["params", "hostile_append", "hostile_clear", "hostile_replace"],
@@ -68,7 +70,10 @@ PROPS = {
                 profiles=["observers"], quick=200, thorough=5000),
     "C20": dict(kind="run", proj="P_C20", mon="mon_C20",
                 profiles=["listeners"], quick=200, thorough=5000),
-    "C13": dict(kind="expr", quick=600, thorough=20000),
+    # C13: expressions in isolation (kind expr) + guards evaluated repeatedly in running orders
+    # (Conditions and loops re-evaluated against current values), compared on oracle queries
+    "C13": dict(kind="expr", quick=600, thorough=20000, proj="P_C04", mon="mon_true",
+                run_profiles=["cond", "loops"], run_quick=120, run_thorough=3000),
 }
 
 # which regenerated-table obligations (coq/Gen/Obligations<X>.v) tie the code each property is
@@ -77,11 +82,12 @@ OBLIGATIONS = {
     "C01": ["Wiring", "Eval", "Gate", "Finished", "Events"], "C02": ["Wiring", "Eval"],
     "C03": ["Wiring", "Eval"], "C04": ["Wiring", "Eval", "Decide"], "C05": ["Wiring", "Eval", "Decide"],
     "C06": ["Wiring", "Eval", "ParLoop"], "C07": ["Wiring", "Eval", "Started", "Finished"],
-    "C08": ["Gate", "Events"], "C13": ["Ops", "Front"], "C14": ["Started", "Wiring"],
+    "C08": ["Gate", "Events"], "C13": ["Ops", "Front", "Decide"], "C14": ["Started", "Wiring"],
     "C15": ["Subst", "Started", "ParLoop"], "C17": ["Finished", "Started"], "C20": ["Finished", "Started"],
     "C18": ["Gate", "Wiring"], "C12": ["Front"],
 }
-RUNTIME = {"run": ["NetRun.vo", "Monitors.vo"], "config": ["NetRun.vo", "Monitors.vo"], "expr": ["Expr.vo"]}
+RUNTIME = {"run": ["NetRun.vo", "Monitors.vo"], "config": ["NetRun.vo", "Monitors.vo"],
+           "expr": ["Expr.vo", "NetRun.vo", "Monitors.vo"]}
 
 
 def build_targets(pid):
